@@ -281,8 +281,12 @@ class Runner:
                 return False
             return bool({"spec": oc.spec_viol, "l1": oc.l1 or oc.spec_viol, "l2": oc.l2 or oc.l1 or oc.spec_viol}[kind])
         head, body = case_ops[0], list(case_ops[1:])
+        t_start = time.time()
         if not bad([head] + body):
             return case_ops, False
+        # a case whose single replay is slow (very long histories) is reported as it is
+        if time.time() - t_start > 20:
+            return case_ops, True
         # drop everything after the failing line first (cheap): binary search on prefix length
         lo, hi = 1, len(body)
         while lo < hi and budget > 0:
